@@ -30,7 +30,8 @@ JudgeCls(e) ==
       accs == {e.accs[i] : i \in 1..Len(e.accs)}
       ok == /\ e.panic = "" /\ accs \subseteq Accessors
             /\ ClassOk(e.lvl, e.bytes, cats, accs, e.type)
-  IN [ok |-> ok, info |-> [ev |-> "cls", lvl |-> e.lvl, bytes |-> e.bytes, type |-> e.type, cats |-> cats, accs |-> accs, panic |-> e.panic]]
+            /\ \A c \in Cats : e.oneof[c] = e.cats[c]          \* IsOneOf(category) is Is(category)
+  IN [ok |-> ok, info |-> [ev |-> "cls", lvl |-> e.lvl, bytes |-> e.bytes, type |-> e.type, cats |-> cats, oneof |-> {c \in Cats : e.oneof[c]}, accs |-> accs, panic |-> e.panic]]
 
 Judge(e) == IF e.ev = "call" THEN JudgeCall(e) ELSE JudgeCls(e)
 
